@@ -200,6 +200,8 @@ def c17b(ctx):
                 ok = True
             elif g.guarded(r, lambda at: at.op == 'in' and unparse(at.left) == v.id and same(at.right, 'available_src'), True):
                 ok = True
+            elif _element_of(ps, g.stmt[r], v, 'available_src'):
+                ok = True
         okall = okall and ok
     ctx.check(okall, 'PreferredSrcSRS.preferred_src:returns-available', 'every returned SRS is an element of available_src', ps,
               fail='preferred_src can return an SRS that is not among the available (supported) ones')
@@ -567,6 +569,65 @@ def c17j(ctx):
     ctx.stats['functions'] |= sub.stats['functions']
 
 
+def _element_of(fn, ret_stmt, v, avail):
+    """is the returned value v an element of the list `avail` (a parameter)?  available[i]; the variable of a loop / generator over it; a
+    local that only ever holds such variables, `next(<generator over avail>, SENTINEL)` or the sentinel itself -- and is returned where it
+    is known not to be the sentinel"""
+    g = fn.cfg
+    if isinstance(v, ast.Subscript) and unparse(v.value) == avail:
+        return True
+    if not isinstance(v, ast.Name):
+        return False
+
+    def loop_var(name, at_node):
+        lp = enclosing(at_node, ast.For)
+        while lp is not None and not (unparse(lp.target) == name and same(lp.iter, avail)):
+            lp = enclosing(lp, ast.For)
+        return lp is not None
+    if loop_var(v.id, ret_stmt):
+        return True
+    defs = Defs(fn.node)
+    ds = defs.of(v.id)
+    if not ds:
+        return False
+    sentinels = set()
+    for val, sel in ds:
+        if sel == 'elem' and same(val, avail):
+            continue
+        if sel is not None:
+            return False
+        if isinstance(val, ast.Name):
+            st = enclosing(val, ast.Assign)
+            if st is not None and loop_var(val.id, st):
+                continue
+            if val.id.lstrip('_').isupper():
+                sentinels.add(val.id)
+                continue
+            return False
+        if isinstance(val, ast.Constant) and val.value is None:
+            sentinels.add('None')
+            continue
+        if is_call(val, 'next') and val.args:
+            gen = fn.canon.expr(val.args[0])
+            if not (isinstance(gen, ast.GeneratorExp) and len(gen.generators) == 1 and same(gen.generators[0].iter, avail) and
+                    isinstance(gen.elt, ast.Name) and unparse(gen.generators[0].target) == gen.elt.id):
+                return False
+            if len(val.args) > 1:
+                d = val.args[1]
+                if isinstance(d, ast.Name) and d.id.lstrip('_').isupper():
+                    sentinels.add(d.id)
+                elif isinstance(d, ast.Constant) and d.value is None:
+                    sentinels.add('None')
+                else:
+                    return False
+            continue
+        return False
+    if sentinels:
+        n = g.node_for(ret_stmt)
+        return all(g.guarded(n, lambda at, s_=s_: at.op in ('is', '==') and {unparse(at.left), unparse(at.right)} == {v.id, s_}, False) for s_ in sentinels)
+    return True
+
+
 @rule('C17.k', floor=2)
 def c17k(ctx):
     """the SRS asked for upstream is one of the configured ones -- the object from the source's own list, with the code that is
@@ -584,11 +645,8 @@ def c17k(ctx):
         if isinstance(v, ast.Subscript) and unparse(v.value) == avail:
             good = True                 # available_src[i]
         elif isinstance(v, ast.Name):
-            # a loop variable over available_src
-            lp = enclosing(r, ast.For)
-            while lp is not None and not (unparse(lp.target) == v.id and same(lp.iter, avail)):
-                lp = enclosing(lp, ast.For)
-            good = lp is not None
+            # a loop variable over available_src, or a local that only holds such elements
+            good = _element_of(fn, r, v, avail)
         if not good:
             ok = False
             detail = 'returns %s' % unparse(v)
